@@ -264,6 +264,59 @@ pub struct Built {
 
 /// Parse `item_text` as a meta item, stand-alone or as first / middle / last member of a list.
 pub fn build_meta(item_text: &str, pos: usize) -> Option<Built> {
+    build_meta_grouped(item_text, pos, 0)
+}
+
+pub const GROUPINGS: [&str; 5] = ["plain", "G(value)", "sign G(lit)", "G(G(value))", "G(sign G(lit))"];
+
+/// The value of the `idx`-th top-level item of `ts` (everything after its `=`) put into invisible
+/// groups, as it arrives when the value was a `macro_rules!` fragment: `$v`, `-$v`, a fragment of
+/// a fragment. Token spans are kept, each group takes the span of what it holds.
+fn regroup(ts: TokenStream, idx: usize, grouping: u8) -> Option<TokenStream> {
+    use proc_macro2::{Delimiter, Group, TokenTree};
+    let toks: Vec<TokenTree> = ts.into_iter().collect();
+    let mut seg = 0usize;
+    let mut start = None;
+    let mut end = toks.len();
+    for (i, t) in toks.iter().enumerate() {
+        if let TokenTree::Punct(p) = t {
+            if p.as_char() == ',' {
+                if seg == idx && start.is_some() {
+                    end = i;
+                    break;
+                }
+                seg += 1;
+            } else if p.as_char() == '=' && seg == idx && start.is_none() {
+                start = Some(i + 1);
+            }
+        }
+    }
+    let start = start?;
+    let value = &toks[start..end];
+    let (sign, lit) = match value {
+        [l @ TokenTree::Literal(_)] => (None, l.clone()),
+        [s @ TokenTree::Punct(p), l @ TokenTree::Literal(_)] if p.as_char() == '-' => (Some(s.clone()), l.clone()),
+        _ => return None,
+    };
+    let group = |inner: Vec<TokenTree>| -> TokenTree {
+        let span = inner.first().unwrap().span().join(inner.last().unwrap().span()).unwrap_or_else(|| inner.last().unwrap().span());
+        let mut g = Group::new(Delimiter::None, inner.into_iter().collect());
+        g.set_span(span);
+        TokenTree::Group(g)
+    };
+    let whole: Vec<TokenTree> = sign.iter().cloned().chain(std::iter::once(lit.clone())).collect();
+    let signed_group = |lit: TokenTree| -> Vec<TokenTree> { sign.iter().cloned().chain(std::iter::once(group(vec![lit]))).collect() };
+    let new_value: Vec<TokenTree> = match grouping {
+        1 => vec![group(whole)],
+        2 => signed_group(lit),
+        3 => vec![group(vec![group(whole)])],
+        4 => vec![group(signed_group(lit))],
+        _ => return None,
+    };
+    Some(toks[..start].iter().cloned().chain(new_value).chain(toks[end..].iter().cloned()).collect())
+}
+
+pub fn build_meta_grouped(item_text: &str, pos: usize, grouping: u8) -> Option<Built> {
     let (src, lo, idx, name) = match pos {
         0 => (item_text.to_string(), 0usize, usize::MAX, "alone"),
         1 => (format!("{item_text}, zz = 1, yy"), 0, 0, "first"),
@@ -271,10 +324,14 @@ pub fn build_meta(item_text: &str, pos: usize) -> Option<Built> {
         _ => (format!("aa, bb = 2, {item_text}"), 12, 2, "last"),
     };
     let hi = lo + item_text.len();
-    let meta = if idx == usize::MAX {
+    let meta = if idx == usize::MAX && grouping == 0 {
         syn::parse_str::<Meta>(&src).ok()?
+    } else if idx == usize::MAX {
+        let ts: TokenStream = syn::parse_str(&src).ok()?;
+        syn::parse2::<Meta>(regroup(ts, 0, grouping)?).ok()?
     } else {
         let ts: TokenStream = syn::parse_str(&src).ok()?;
+        let ts = if grouping == 0 { ts } else { regroup(ts, idx, grouping)? };
         let items = darling::ast::NestedMeta::parse_meta_list(ts).ok()?;
         match items.into_iter().nth(idx)? {
             darling::ast::NestedMeta::Meta(m) => m,
@@ -288,6 +345,7 @@ pub fn build_meta(item_text: &str, pos: usize) -> Option<Built> {
         }
         _ => None,
     };
+    let src = if grouping == 0 { src } else { format!("{src}   [the value of `x` in invisible groups: {}]", GROUPINGS[grouping as usize]) };
     Some(Built {
         meta,
         item: (lo, hi),
@@ -319,11 +377,20 @@ pub enum Denotes {
     Other,
 }
 
+fn peel(mut e: &Expr) -> &Expr {
+    while let Expr::Group(g) = e {
+        e = &g.expr;
+    }
+    e
+}
+
 fn received_class(m: &Meta) -> &'static str {
     match m {
         Meta::Path(_) => "word",
         Meta::List(_) => "list",
-        Meta::NameValue(nv) => match &nv.value {
+        // an invisible group is what a macro fragment leaves around its tokens: it is not part of
+        // the value (`-$v` is a negative literal like `-5`)
+        Meta::NameValue(nv) => match peel(&nv.value) {
             Expr::Lit(l) => match &l.lit {
                 Lit::Int(_) => "lit-int",
                 Lit::Float(_) => "lit-float",
@@ -334,7 +401,7 @@ fn received_class(m: &Meta) -> &'static str {
                 Lit::ByteStr(_) => "lit-bytestr",
                 _ => "lit-other",
             },
-            Expr::Unary(u) if matches!(u.op, syn::UnOp::Neg(_)) && matches!(&*u.expr, Expr::Lit(l) if matches!(l.lit, Lit::Int(_) | Lit::Float(_))) => "expr-neg-lit",
+            Expr::Unary(u) if matches!(u.op, syn::UnOp::Neg(_)) && matches!(peel(&u.expr), Expr::Lit(l) if matches!(l.lit, Lit::Int(_) | Lit::Float(_))) => "expr-neg-lit",
             Expr::Unary(_) => "expr-unary",
             Expr::Path(_) => "expr-path",
             Expr::Group(_) => "expr-group",
@@ -476,6 +543,18 @@ fn one_case(ts: &[Target], item: &str, d: &Denotes, class: &str, pos: usize, c: 
     c.count(&format!("received.{}", received_class(&b.meta)));
     for t in ts {
         judge(t, &b, d, class, c);
+    }
+    // the same number arriving as a macro fragment (`$v`, `-$v`, a fragment of a fragment): one of
+    // the four groupings per case, chosen by the text
+    if matches!(d, Denotes::Int(_) | Denotes::Float(_)) {
+        let grouping = 1 + ((text.len() + pos + text.bytes().map(|b| b as usize).sum::<usize>()) % 4) as u8;
+        if let Some(b) = build_meta_grouped(&text, pos, grouping) {
+            c.count(&format!("grouped.{}.{}", GROUPINGS[grouping as usize], b.pos));
+            c.count(&format!("received.{}", received_class(&b.meta)));
+            for t in ts {
+                judge(t, &b, d, class, c);
+            }
+        }
     }
 }
 
